@@ -15,7 +15,9 @@
    and ETag); (c) stale-entry probe at storage level, (d) the re-check under the cache lock; (e) write faults (ENOSPC while
    the entry is written) in histories and probes + the rule "entries are published by rename only" (audit hook);
    (f) same size / same mtime_ns edits under hash keying; (g) the storage hook as external editor racing a GET.
-   Per pair: [encoding] stock in {utf-8, iso-8859-1, cp1252} with non-ASCII text.
+   (h) residue of interrupted atomic writes in the cache folders (run B); (i) two readers rebuilding after the cache folders
+   were removed; (j) the two key functions are exactly SHA-256(version + bytes) / version + size + mtime_ns, with a collision
+   search when not.  Per pair: [encoding] stock in {utf-8, iso-8859-1, cp1252} with non-ASCII text.
 """
 import concurrent.futures
 import json
@@ -136,6 +138,8 @@ def run(ctx):
 
     storage_level(ctx)
     hook_schedule_probe(ctx)
+    two_reader_probe(ctx)
+    key_function_check(ctx)
 
     # a broken correspondence with no monitor failure: look for a failing input around the disagreeing pairs
     if bad and not ctx.violations:
@@ -392,6 +396,150 @@ def hook_schedule_probe(ctx):
                 break
         finally:
             srv.close()
+
+
+def two_reader_probe(ctx):
+    """"Deleted at any point" includes "while two readers are rebuilding": the cache folders are removed, two threads read
+    the same collection under the shared lock and meet between the isdir test and the directory creation of
+    _makedirs_synced (rendezvous in an `os` proxy for base.py on mkdir / makedirs of a `.Radicale.cache` path).
+    Both answers must equal the answer given with the cache kept."""
+    import shutil
+    import threading
+    from vlib import impl, x_c13 as X
+    from radicale.storage.multifilesystem import base as base_mod
+    X.install()
+    X.CUR[0] = None
+    X.STOCK[0] = "utf-8"
+    for stat, sub, what in ((0, 0, "propfind"), (1, 1, "get"), (0, 1, "propfind")):
+        srv = impl.Server({"storage": {"use_mtime_and_size_for_item_cache": str(bool(stat)),
+                                       "use_cache_subfolder_for_item": str(bool(sub))},
+                           "auth": {"type": "none"}, "rights": {"type": "authenticated"}})
+        try:
+            assert srv.request("MKCALENDAR", "/u/cal1/", login="u:")[0] == 201
+            for nme, k in (("a", 1), ("b", 5)):
+                assert srv.request("PUT", "/u/cal1/%s.ics" % nme, data=X.item_body("VCALENDAR", nme, k), login="u:")[0] == 201
+
+            def read():
+                if what == "get":
+                    st, hd, body = srv.request("GET", "/u/cal1/a.ics", login="u:")
+                    return X.canon_response("GET", "/u/cal1/a.ics", st, hd, body)
+                st, hd, body = srv.request("PROPFIND", "/u/cal1/", data=X.PROPFIND, login="u:", HTTP_DEPTH="1")
+                return X.canon_response("PROPFIND", "/u/cal1/", st, hd, body)
+            kept = read()
+            for root, dirs, _files in os.walk(srv.folder):
+                for dn in list(dirs):
+                    if dn in (".Radicale.cache", "collection-cache"):
+                        shutil.rmtree(os.path.join(root, dn), ignore_errors=True)
+                        dirs.remove(dn)
+            barrier = threading.Barrier(2)
+            met = []
+            seen = threading.local()
+
+            class Os:
+                def __getattr__(self, n):
+                    return getattr(os, n)
+
+                def _meet(self, path):
+                    if ".Radicale.cache" in str(path) and not getattr(seen, "done", False):
+                        seen.done = True                      # once per thread: the first cache folder it creates
+                        try:
+                            barrier.wait(timeout=1.0)
+                            met.append(1)
+                        except threading.BrokenBarrierError:
+                            pass
+
+                def mkdir(self, path, *a, **k):
+                    self._meet(path)
+                    return os.mkdir(path, *a, **k)
+
+                def makedirs(self, path, *a, **k):
+                    self._meet(path)
+                    return os.makedirs(path, *a, **k)
+            res = {}
+            base_mod.os = Os()
+            try:
+                ts = [threading.Thread(target=lambda i=i: res.__setitem__(i, read())) for i in (1, 2)]
+                for t in ts:
+                    t.start()
+                for t in ts:
+                    t.join()
+            finally:
+                base_mod.os = os
+            ctx.count("probe:two-readers-rebuild-after-cache-removal")
+            ctx.count("probe:two-readers-met-before-mkdir", int(len(met) == 2))
+            ctx.case(("two-readers", stat, sub, what), nontrivial=True)
+            bad = [i for i in (1, 2) if res.get(i) != kept]
+            if bad:
+                ctx.violation("C13 two-reader probe: cache folders removed, two concurrent %s of one collection under the shared lock "
+                              "(both saw the cache folder missing before either created it): reader %d answers %s, with the cache kept the "
+                              "answer was %s" % (what.upper(), bad[0], (res.get(bad[0]) or {}).get("status"), kept["status"]),
+                              dict(scenario="rm -r .Radicale.cache; 2 threads %s; rendezvous between isdir and mkdir/makedirs in "
+                                            "_makedirs_synced" % what, stat=bool(stat), cache_subfolder=bool(sub),
+                                   statuses={i: (res.get(i) or {}).get("status") for i in (1, 2)}, kept_status=kept["status"],
+                                   note="./check C13 re-runs this probe deterministically (checks/C13.py two_reader_probe)"))
+                break
+        finally:
+            srv.close()
+
+
+def key_function_check(ctx):
+    """The two key functions of cache.py are exactly the ones the model's free constructors stand for: SHA-256 over
+    CACHE_VERSION + bytes (hex), and CACHE_VERSION + "size=<size>;mtime=<mtime_ns>".  When the content key is something
+    else, a time-boxed birthday search over same-size bodies looks for two contents with one key and shows the stale answer."""
+    import hashlib
+    import time
+    from vlib import x_c13 as X
+    import radicale.storage as rstorage
+    from radicale.storage import multifilesystem as mfs
+    X.install()
+    X.STOCK[0] = "utf-8"
+    ver = rstorage.CACHE_VERSION
+    samples = [b"", b"x", b"BEGIN:VCALENDAR\r\n", bytes(range(256)) * 3]
+    ok_hash = all(mfs.Collection._item_cache_hash(b) == hashlib.sha256(ver + b).hexdigest() for b in samples)
+    ok_stat = all(mfs.Collection._item_cache_mtime_and_size(sz, mt) == ver.decode() + "size=%d;mtime=%d" % (sz, mt)
+                  for sz, mt in ((0, 0), (187, 10 ** 18 + 11), (5, 1759261234123456789)))
+    ctx.obligation("cache-key:hash-mode-is-SHA-256-of-CACHE_VERSION-and-file-bytes", ok_hash,
+                   "" if ok_hash else "_item_cache_hash(b'x') = %r" % (mfs.Collection._item_cache_hash(b"x"),))
+    ctx.obligation("cache-key:stat-mode-is-CACHE_VERSION-size-mtime_ns", ok_stat,
+                   "" if ok_stat else "_item_cache_mtime_and_size(187, 11) = %r" % (mfs.Collection._item_cache_mtime_and_size(187, 11),))
+    if ok_hash:
+        return
+    # search: two same-size valid objects with the same content key
+    import random
+    import string
+    srng, alphabet = random.Random(ctx.seed), string.ascii_letters + string.digits
+    t0, seen_keys, pair = time.time(), {}, None
+    i = 0
+    while time.time() - t0 < ctx.n(20, 120) and i < 3000000:
+        # 14 random letters: enough independent bits for a birthday collision of any key of <= ~40 bits (a counter would not
+        # do: CRCs are linear, and digits vary in 4 bits only)
+        pad = "".join(alphabet[srng.randrange(62)] for _ in range(14))
+        body = X.impl.event("a", summary="collide", extra="DESCRIPTION:%s\r\n" % pad + X.STAMP).encode()
+        k = mfs.Collection._item_cache_hash(body)
+        if k in seen_keys and seen_keys[k] != body:
+            pair = (seen_keys[k], body)
+            break
+        seen_keys[k] = body
+        i += 1
+    ctx.extra["weak_key_search"] = dict(candidates=i, found=pair is not None)
+    if pair is None:
+        return
+    run = X.Run(X.Dict(), dict(stat=0, sub=0, ver=0, skip=1), "W")
+    try:
+        assert run.request("MKCALENDAR", "/u/cal1/")[0] == 201
+        run.ext_edit("u/cal1", "VCALENDAR", "a.ics", pair[0], run.tick())
+        g1 = run.request("GET", "/u/cal1/a.ics")
+        run.ext_edit("u/cal1", "VCALENDAR", "a.ics", pair[1], run.tick())
+        g2 = run.request("GET", "/u/cal1/a.ics")
+        cold = X.cold_derive("VCALENDAR", pair[1])
+        if g2[0] != 200 or g2[2].decode() != cold[2] or g2[1].get("ETag") != cold[1]:
+            ctx.violation("C13 weak content key: two item contents of equal size have the same cache key %r; after replacing the file "
+                          "by the second one (under the storage lock, new mtime) GET still answers the first" %
+                          (mfs.Collection._item_cache_hash(pair[1]),),
+                          dict(first=pair[0].decode(), second=pair[1].decode(), served_etag=g2[1].get("ETag"), cold_etag=cold[1],
+                               note="write first as /u/cal1/a.ics, GET, write second, GET"))
+    finally:
+        run.close()
 
 
 def probe_get(run, collpath, name, lk):
